@@ -162,39 +162,49 @@ Proof.
     replace (Nat.eqb k j) with false by (symmetry; apply Nat.eqb_neq; lia). reflexivity.
 Qed.
 
-Lemma mrel_all_finished pop s m tm ts : MRel pop s m tm ts -> all_finished s = true -> all_finished m = true.
+Lemma mrel_finished_eq pop s m tm ts : MRel pop s m tm ts -> all_finished s = true -> m = s.
 Proof.
   intros [Hle Hlen Hw Hout Hmid Hpre Hpost Hq] Hall. pose proof (all_finished_spec s Hall) as Hfin.
   assert (tm = ts).
   { destruct (Nat.eq_dec tm ts) as [E|E]; [exact E|]. exfalso. destruct (Hmid tm ltac:(lia)) as (X & _). rewrite (Hfin tm) in X by lia. discriminate. }
   subst. assert (E : jobs m = jobs s).
   { apply (nth_ext _ _ (mkJob Finished []) (mkJob Finished [])); [exact Hlen|]. intros k _. apply (Hout k). lia. }
-  unfold all_finished in *. rewrite E. exact Hall.
+  rewrite Nat.sub_diag in Hq. cbn in Hq. destruct m, s. cbn in *. congruence.
 Qed.
 
-Theorem mech_sim pop : forall sched s m tm ts, MRel pop s m tm ts -> fifo_sched pop s sched = true ->
-  all_finished (qrun pop s sched) = true -> mech_replay pop m (obs_trace pop s sched) = true.
+(* the prediction follows the mechanism along every FIFO schedule (complete or not) *)
+Theorem mech_sim_state pop : forall sched s m tm ts, MRel pop s m tm ts -> fifo_sched pop s sched = true ->
+  exists m' tm' ts', mech_state pop m (obs_trace pop s sched) = Some m' /\ MRel pop (qrun pop s sched) m' tm' ts'.
 Proof.
-  induction sched as [|e t IH]; intros s m tm ts HR Hf Hall.
-  - cbn in *. eapply mrel_all_finished; eauto.
-  - cbn [obs_trace fifo_sched qrun fold_left] in *. fold (qrun pop (qstep pop s e) t) in Hall.
+  induction sched as [|e t IH]; intros s m tm ts HR Hf.
+  - cbn. eauto.
+  - cbn [obs_trace fifo_sched qrun fold_left] in *. fold (qrun pop (qstep pop s e) t).
     apply andb_true_iff in Hf as [Hf1 Hf2]. destruct (enabled pop s e) eqn:En.
     + destruct e as [j|j|j]; cbn [app].
-      * eapply IH; [eapply mrel_real_take; eauto| exact Hf2| exact Hall].
+      * eapply IH; [eapply mrel_real_take; eauto| exact Hf2].
       * destruct (enabled_run _ _ _ En) as (Hjl & Hp & _).
         assert (Hjts : j < ts).
         { destruct (Nat.lt_ge_cases j ts) as [L|L]; [exact L|]. rewrite (mr_post _ _ _ _ _ HR j L Hjl) in Hp. discriminate. }
         pose proof (mrel_takes pop s m tm ts HR (S j) ltac:(lia)) as HR1. fold (take_upto pop m j) in HR1.
         destruct (mrel_run pop s _ _ ts j HR1 ltac:(lia) En) as (Em & Er & HR2).
-        cbn [mech_replay]. rewrite Er, zlist_eqb_refl, Em. cbn [andb]. eapply IH; eauto.
-      * destruct (mrel_finish pop s m tm ts j HR En) as (Em & HR2). cbn [mech_replay]. rewrite Em. cbn [andb]. eapply IH; eauto.
+        cbn [mech_state]. rewrite Er, zlist_eqb_refl, Em. cbn [andb]. eapply IH; eauto.
+      * destruct (mrel_finish pop s m tm ts j HR En) as (Em & HR2). cbn [mech_state]. rewrite Em. eapply IH; eauto.
     + cbn [app]. rewrite (qstep_disabled _ _ _ En) in *. eapply IH; eauto.
+Qed.
+
+(* on a complete FIFO schedule the prediction ends exactly in the state of the mechanism (deque order included) *)
+Theorem mech_state_complete q0 pop njobs W sched :
+  fifo_sched pop (qinit q0 njobs W) sched = true -> all_finished (qrun pop (qinit q0 njobs W) sched) = true ->
+  mech_state pop (qinit q0 njobs W) (obs_trace pop (qinit q0 njobs W) sched) = Some (qrun pop (qinit q0 njobs W) sched).
+Proof.
+  intros Hf Hall. destruct (mech_sim_state pop sched _ _ 0 0 (mrel_init pop q0 njobs W) Hf) as (m' & tm' & ts' & E & HR).
+  rewrite E. f_equal. eapply mrel_finished_eq; eauto.
 Qed.
 
 Theorem mech_replay_accepts_fifo q0 pop njobs W sched :
   fifo_sched pop (qinit q0 njobs W) sched = true -> all_finished (qrun pop (qinit q0 njobs W) sched) = true ->
   mech_replay pop (qinit q0 njobs W) (obs_trace pop (qinit q0 njobs W) sched) = true.
-Proof. apply (mech_sim pop sched _ _ 0 0). apply mrel_init. Qed.
+Proof. intros Hf Hall. rewrite mech_replay_state, (mech_state_complete _ _ _ _ _ Hf Hall). exact Hall. Qed.
 
 (* non-FIFO takes are NOT accepted by the exact prediction (it is a statement about the FIFO queue semaphore only):
    job 1 takes before job 0 and therefore receives the head of the deque *)
